@@ -108,9 +108,16 @@ def reuse_one_memory_object(case, path):
         return 'unloadable:' + type(e).__name__
     bits = list(case['input_bits'])
     log = []
+
+    class RaisingTruth:
+        # what a device may hand back from read_bit: an object whose truth value cannot be taken (e.g. a numpy array)
+        def __bool__(self):
+            raise ValueError('truth value of this object is ambiguous')
+    kept = RaisingTruth()
     for ring, fail_at, exc_kind in case['reuse']:
         calls = [0]
         pos = [0]
+        before = sys.getrefcount(kept)
 
         def tick():
             calls[0] += 1
@@ -118,6 +125,9 @@ def reuse_one_memory_object(case, path):
                 raise (KeyboardInterrupt() if exc_kind == 'kbd' else ValueError('planned'))
 
         def rb():
+            if exc_kind == 'badbool' and fail_at and calls[0] + 1 == fail_at:
+                calls[0] += 1
+                return kept
             tick()
             if pos[0] >= len(bits):
                 raise IOReadOnEOF('eof')
@@ -134,6 +144,10 @@ def reuse_one_memory_object(case, path):
             log.append(['exc', type(e).__name__])
         # what fjm_run reads back on either path
         log.append([len(m.last_run_last_ops), m.last_run_op_count, m.storage_mode])
+        sys.exc_info()
+        delta = sys.getrefcount(kept) - before
+        if delta:
+            return {'refcount_delta': delta, 'after': [ring, fail_at, exc_kind]}
     del m
     return log
 
